@@ -420,6 +420,13 @@ func DefaultFromText(s *model.Schema, t *model.TypeRef, text string) interface{}
 				return i
 			}
 		}
+		if base == "Time" {
+			// a Time default is reported bare while it is still the string of the document and as a string literal once
+			// validation has turned it into a time (directive arguments): the same instant either way
+			if str, isS := pv.(string); isS && err == nil && strings.HasPrefix(text, "\"") {
+				return str
+			}
+		}
 		return text
 	}
 	if err != nil {
